@@ -17,6 +17,7 @@
 #include <kernel/lafem/sparse_matrix_banded.hpp>
 #include <kernel/lafem/sparse_layout.hpp>
 #include <kernel/lafem/dense_matrix.hpp>
+#include <kernel/lafem/tuple_vector.hpp>
 #include <kernel/lafem/sparse_matrix_cscr.hpp>
 #include <kernel/lafem/sparse_vector.hpp>
 #include <kernel/lafem/sparse_vector_blocked.hpp>
@@ -99,7 +100,11 @@ template<class F> static void with_kind(int k, F f)
   }
 }
 
-struct Box { void* obj = nullptr; int kind = 0, dt = 0, it = 0; bool alive() const { return obj != nullptr; } };
+struct Box { void* obj = nullptr; int kind = 0, dt = 0, it = 0, comp = -1; bool alive() const { return obj != nullptr; } };
+// TupleVector<DenseVector, DenseVector> objects; their two components are registered in two container slots
+struct TBox { void* obj = nullptr; int dt = 0, it = 0, s0 = -1, s1 = -1; bool alive() const { return obj != nullptr; } };
+static const int NTUP = 4;
+static TBox tups[NTUP];
 struct LBox { void* obj = nullptr; int lk = 0, it = 0; bool alive() const { return obj != nullptr; } };
 
 static const int NSLOT = 8, NLAY = 4;
@@ -547,6 +552,7 @@ static bool do_op(Cur& c, std::ostream& o)
   else if(op == "destroy")
   {
     int a = (int)c.i64(); need_alive(a);
+    if(slots[a].comp >= 0) bad("destroy: component of a tuple");
     destroy_slot(a);
   }
   else if(op == "format")
@@ -629,6 +635,87 @@ static bool do_op(Cur& c, std::ostream& o)
     int l = (int)c.i64();
     if(l < 0 || l >= NLAY || !lays[l].alive()) bad("ldrop: layout");
     destroy_layout(l);
+  }
+  else if(op == "T2")
+  {
+    // one operation of the real TupleVector<DenseVector, DenseVector>; the line spells out the two component
+    // operations it must be equivalent to (the model executes exactly those two)
+    int t = (int)c.i64();
+    if(t < 0 || t >= NTUP) bad("T2: tuple index");
+    struct COp { std::string name; std::vector<long long> a; };
+    auto arity = [](const std::string& n) -> int { return n == "new" ? 6 : n == "clone" ? 4 : n == "move" ? 2 : n == "clear" ? 1
+      : n == "format" ? 2 : n == "copy" ? 3 : n == "destroy" ? 1 : -1; };
+    COp o[2];
+    for(int k = 0; k < 2; ++k)
+    {
+      o[k].name = c.str();
+      int ar = arity(o[k].name);
+      if(ar < 0) bad("T2: op");
+      for(int j = 0; j < ar; ++j) o[k].a.push_back(c.i64());
+    }
+    if(o[0].name != o[1].name) bad("T2: component ops differ");
+    const std::string& nm = o[0].name;
+    TBox& ta = tups[t];
+    auto find_tuple = [&](int s0, int s1) -> int
+    {
+      for(int k = 0; k < NTUP; ++k) if(tups[k].alive() && tups[k].s0 == s0 && tups[k].s1 == s1) return k;
+      return -1;
+    };
+    auto reg = [&](TBox& tb, int tidx, int s0, int s1, int dt, int it, void* c0, void* c1)
+    {
+      tb.s0 = s0; tb.s1 = s1; tb.dt = dt; tb.it = it;
+      slots[s0].obj = c0; slots[s0].kind = 0; slots[s0].dt = dt; slots[s0].it = it; slots[s0].comp = tidx;
+      slots[s1].obj = c1; slots[s1].kind = 0; slots[s1].dt = dt; slots[s1].it = it; slots[s1].comp = tidx;
+    };
+    int a0 = (int)o[0].a[0], a1 = (int)o[1].a[0];
+    if(a0 < 0 || a0 >= NSLOT || a1 < 0 || a1 >= NSLOT || a0 == a1) bad("T2: slots");
+    if(ta.alive() ? (ta.s0 != a0 || ta.s1 != a1) : (slots[a0].alive() || slots[a1].alive())) bad("T2: target slots");
+    int dt = ta.alive() ? ta.dt : 0, it = ta.alive() ? ta.it : 0, tb_idx = -1;
+    if(nm == "new") { dt = (int)o[0].a[2]; it = (int)o[0].a[3]; if(ta.alive() || o[0].a[1] != 0 || o[1].a[1] != 0 || o[1].a[2] != dt || o[1].a[3] != it) bad("T2: new"); }
+    if(nm == "clone" || nm == "move" || nm == "copy")
+    {
+      tb_idx = find_tuple((int)o[0].a[1], (int)o[1].a[1]);
+      if(tb_idx < 0) bad("T2: source is not a tuple");
+      if(ta.alive() && (ta.dt != tups[tb_idx].dt || ta.it != tups[tb_idx].it)) bad("T2: types");
+      dt = tups[tb_idx].dt; it = tups[tb_idx].it;
+    }
+    if(!ta.alive() && !(nm == "new" || nm == "clone" || nm == "move")) bad("T2: dead tuple");
+    with_di(dt, it, [&](auto dtag, auto itag)
+    {
+      typedef typename decltype(dtag)::type D; typedef typename decltype(itag)::type I;
+      typedef DenseVector<D, I> V; typedef TupleVector<V, V> TV;
+      TV* pa = static_cast<TV*>(ta.obj);
+      TV* pb = tb_idx >= 0 ? static_cast<TV*>(tups[tb_idx].obj) : nullptr;
+      if(nm == "new")
+      {
+        pa = new TV(V(Index(o[0].a[4]), D(o[0].a[5])), V(Index(o[1].a[4]), D(o[1].a[5])));
+        fill_arrays<D, I>(pa->template at<0>(), o[0].a[5], true, false);
+        fill_arrays<D, I>(pa->template at<1>(), o[1].a[5], true, false);
+      }
+      else if(nm == "clone")
+      {
+        if(o[0].a[2] != o[1].a[2] || o[0].a[2] < 0 || o[0].a[2] > 4) bad("T2: clone mode");
+        CloneMode cm = CloneMode((int)o[0].a[2]);
+        if(pa == nullptr) pa = new TV(pb->clone(cm)); else pa->clone(*pb, cm);
+        bool fe = (cm == CloneMode::Allocate || cm == CloneMode::Layout);
+        fill_arrays<D, I>(pa->template at<0>(), o[0].a[3], fe, false);
+        fill_arrays<D, I>(pa->template at<1>(), o[1].a[3], fe, false);
+      }
+      else if(nm == "move") { if(pa == nullptr) pa = new TV(std::move(*pb)); else *pa = std::move(*pb); }
+      else if(nm == "clear") pa->clear();
+      else if(nm == "format") { if(o[0].a[1] != o[1].a[1]) bad("T2: format value"); pa->format(D(o[0].a[1])); }
+      else if(nm == "copy") { if(o[0].a[2] != o[1].a[2]) bad("T2: copy flag"); pa->copy(*pb, o[0].a[2] != 0); }
+      else if(nm == "destroy")
+      {
+        delete pa; pa = nullptr;
+        slots[a0] = Box(); slots[a1] = Box(); ta = TBox();
+      }
+      if(pa != nullptr)
+      {
+        ta.obj = pa;
+        reg(ta, t, a0, a1, dt, it, &pa->template at<0>(), &pa->template at<1>());
+      }
+    });
   }
   else if(op == "end")
   {
